@@ -146,7 +146,7 @@ Proof.
                           s_maps := s_maps s; s_errs := s_errs s;
                           s_evs := s_evs s ++ map (fun p => EFulfil (slice (p_path p))) hit;
                           s_round := S (s_round s) |}).
-  { split; simpl; [apply hle_refl|]. intros id pr H. exists (mark chosen pr). split.
+  { split; simpl; [apply hle_refl|]. split; [|apply incl_refl]. intros id pr H. exists (mark chosen pr). split.
     - rewrite nth_error_map, H. reflexivity.
     - apply mark_ok. }
   split; [|split; [exact Hsle | reflexivity]].
@@ -399,9 +399,15 @@ Proof.
 Qed.
 
 (** what a finished request looks like *)
+(** the sites whose failure-null the data of the request shows: the root when the data is null,
+    otherwise the failing nullable positions not hidden beneath another one *)
+Definition must_root (root : selset) : list site :=
+  if fails_inner (VObj root) then [([], fst (cand_inner (VObj root) []))] else must_I (VObj root) [].
+
 Definition resp_ok (root : selset) (r : resp) : Prop :=
   r_data r = ddata root /\
   (exists ls, Forall2 lands (r_errors r) ls /\ sub_perm ls (sites root)) /\
+  Forall (fun x => exists e, In e (r_errors r) /\ lands e x) (must_root root) /\
   r_rounds r <= r_promises r /\ r_promises r <= count_async root.
 
 Lemma finish_ok root G s r jfuel :
@@ -413,22 +419,26 @@ Proof.
   intros W RO D. destruct (w_errs _ _ _ _ _ _ W) as (ls & F & S). simpl in S. rewrite app_nil_r in S.
   pose proof (w_rounds _ _ _ _ _ _ W) as Hr. pose proof (ndone_le s) as Hn.
   pose proof (w_pot _ _ _ _ _ _ W) as Hp. simpl in Hp.
-  destruct r as [v|e]; unfold ResOK, spec_I in RO; cbn [ps_fails ps_json ps_esc] in RO; destruct RO as [Fl X].
-  - unfold finish. rewrite (to_json_val_ok G (s_maps s) (w_inv _ _ _ _ _ _ W) jfuel v _ X D).
+  destruct r as [v|e]; unfold ResOK, spec_I in RO; cbn [ps_fails ps_json ps_esc ps_must] in RO.
+  - destruct RO as (Fl & X & Mu).
+    unfold finish. rewrite (to_json_val_ok G (s_maps s) (w_inv _ _ _ _ _ _ W) jfuel v _ X D).
     eexists. split; [reflexivity|]. unfold resp_ok; simpl. split.
     + unfold ddata. now rewrite Fl.
-    + split.
+    + split; [|split].
       * exists ls. split; auto. rewrite sites_eq. now apply sub_perm_cons_r.
+      * unfold must_root. rewrite Fl. exact Mu.
       * unfold np in *. lia.
-  - unfold finish. eexists. split; [reflexivity|]. unfold resp_ok; simpl. split.
+  - destruct RO as [Fl X].
+    unfold finish. eexists. split; [reflexivity|]. unfold resp_ok; simpl. split.
     + unfold ddata. now rewrite Fl.
-    + split.
+    + split; [|split]; [| |unfold np in *; lia]; [|
+        unfold must_root; rewrite Fl; constructor; [|constructor];
+        exists e; split; [apply in_or_app; right; now left | exact X]].
       * exists (ls ++ [([], fst (cand_inner (VObj root) []))]). split.
         -- apply Forall2_app; auto.
         -- rewrite sites_eq.
            eapply sub_perm_perm_r; [apply (Permutation_app_comm (root_sites root) [([], fst (cand_inner (VObj root) []))])|].
            apply sub_perm_app; [exact S | apply sub_perm_refl].
-      * unfold np in *. lia.
 Qed.
 
 Theorem run_query_ok sigma fuel jfuel root :
